@@ -13,14 +13,16 @@ class mmap(object):
         self.closed = False
         if len(self.f.fs.files[self.f.path]) == 0:
             raise ValueError("cannot mmap an empty file")
+        # mmap(fileno, length=0) maps the file as long as it is *now*; later appends are not visible
+        self.size = len(self.f.fs.files[self.f.path])
 
     def __len__(self):
-        return len(self.f.fs.files[self.f.path])
+        return self.size
 
     def __getitem__(self, k):
         if self.closed:
             raise ValueError("mmap closed or invalid")
-        buf = self.f.fs.files[self.f.path]
+        buf = self.f.fs.files[self.f.path][:self.size]
         if isinstance(k, slice):
             return SymBytes(tuple(buf[k]))
         return buf[k]
